@@ -17,4 +17,4 @@ git checkout go.work.sum 2>/dev/null
 /verif/tools/verify_mutant.sh "$id" "$suf" "$name" >/dev/null
 # hide the demo test from the harness build (it is a _test file, so harmless)
 echo "== ./check $id against the mutant:"
-cd /verif && VERIF_REPO=$d ./check "$id" 2>&1 | grep -v '^KNOWN-FINDING' | head -8
+cd ${MTV:-/work/MT/verif} && git fetch -q /verif HEAD && git reset -q --hard FETCH_HEAD && VERIF_REPO=$d ./check "$id" 2>&1 | grep -v '^KNOWN-FINDING' | head -8
